@@ -93,6 +93,7 @@ class Interp:
         self.steps = 0
         self.depth = 0
         self.float_ops = 0
+        self.sum_ops = 0      # float sums formed by a matrix product (the only place where the order of additions is not written in the source)
         self.max_mag = 0.0
         self.calls = 0
 
@@ -241,6 +242,7 @@ class Interp:
                     row = []
                     for j in range(rt[3]):
                         acc = 0.0 if t == FLOAT else 0
+                        self.sum_ops += (t == FLOAT)
                         for k in range(lt[3]):
                             p = self.scalar_op("*", t, self.conv_scalar(a[i][k], lt[1], t),
                                                self.conv_scalar(b[k][j], rt[1], t))
@@ -267,6 +269,7 @@ class Interp:
             res = []
             for i in range(lt[2]):
                 acc = 0.0 if t == FLOAT else 0
+                self.sum_ops += (t == FLOAT)
                 for k in range(lt[3]):
                     p = self.scalar_op("*", t, self.conv_scalar(a[i][k], lt[1], t),
                                        self.conv_scalar(b[k], rt[1], t))
@@ -492,6 +495,8 @@ class Interp:
             raise OutOfDomain("recursion depth")
         frame = {}
         for (t, n), v in zip(fn.params, args):
+            if n is None:       # unnamed parameter: takes its position, cannot be referred to
+                continue
             frame[n] = deep_copy(v) if (is_vec(t) or is_mat(t) or is_scalar(t)) else v
         try:
             try:
